@@ -123,7 +123,8 @@ def outside(rng, bounds, incl, integer=False):
 # ------------------------------------------------------------------ parameter specs
 
 C15_TYPES = ['Integer', 'Number', 'String', 'Boolean', 'Tuple', 'NumericTuple', 'XYCoordinates', 'Range', 'Date',
-             'CalendarDate', 'DateRange', 'CalendarDateRange', 'List', 'Dict', 'Selector', 'ListSelector', 'Color']
+             'CalendarDate', 'DateRange', 'CalendarDateRange', 'List', 'Dict', 'Selector', 'ListSelector', 'Color',
+             'Magnitude', 'ClassSelector']      # (the last two are not in the quantifier's list but are JSON-serialisable types too)
 C16_TYPES = ['Integer', 'Number', 'String', 'Boolean', 'Tuple', 'NumericTuple', 'XYCoordinates', 'Range', 'Date',
              'CalendarDate', 'List', 'Dict', 'Selector', 'ListSelector', 'ClassSelector']
 
@@ -157,6 +158,9 @@ def gen_spec(rng, ptype, for_schema=False):
             kw['inclusive_bounds'] = inc
         s['bounds'], s['incl'], s['integer'] = b, inc, integer
         s['gen'] = lambda r: inside(r, b, inc, integer)
+    elif ptype == 'Magnitude':
+        s['bounds'], s['incl'], s['integer'] = (0.0, 1.0), (True, True), False
+        s['gen'] = lambda r: r.choice([0.0, 1.0, 0.5, r.random(), 1, 0, 5e-324])
     elif ptype == 'String':
         s['gen'] = rstr
     elif ptype == 'Boolean':
